@@ -357,7 +357,26 @@ def gen_env(rng, nmax=4, nch_max=12):
             'pmax': [rng.choice([6, 8, 10, 12, 14, 17, 21]) for _ in AMP_SHAPES],
             'add_drop_osnr': rng.choice([30, 33, 38, 45]), 'roadm_pmd': rng.choice([0, 1e-12, 3e-12]),
             'roadm_pdl': rng.choice([0, 0.5, 1.5]), 'roadm_target': rng.choice([-20, -20, -18, -23]),
-            'fibers': gen_fibers(rng), 'span_types': [rng.randrange(3) for _ in range(8)]}
+            'fibers': gen_fibers(rng), 'span_types': [rng.randrange(3) for _ in range(8)],
+            'roadm_profile': gen_roadm_profile(rng), 'roadm_sites': [rng.random() < 0.5 for _ in range(n)]}
+
+
+def gen_roadm_profile(rng):
+    """a ROADM type with per-path impairment profiles (roadm-osnr per frequency range for add / drop / express paths);
+    None = only the default add_drop_osnr model"""
+    if rng.random() < 0.45:
+        return None
+    split = F0 + rng.choice([0.12e12, 0.21e12, 0.33e12])
+
+    def osnr_pair(p_none):
+        if rng.random() < p_none:
+            return None
+        a = rng.choice([30, 35, 41, 45])
+        return [a, a if rng.random() < 0.4 else rng.choice([28, 33, 38, 43])]
+    return {'split': split, 'add_drop_osnr': rng.choice([32, 36, 40]),
+            'add': osnr_pair(0.2) if rng.random() < 0.85 else 'absent',
+            'drop': osnr_pair(0.2) if rng.random() < 0.85 else 'absent',
+            'express': osnr_pair(0.6) if rng.random() < 0.8 else 'absent'}
 
 
 DPF_FREQ = [190.9e12, 191.3e12, 191.45e12, 191.6e12, 191.75e12, 191.95e12, 192.2e12, 196.7e12]
@@ -392,6 +411,28 @@ def eqpt_json(env, modes):
     r['pmd'] = env['roadm_pmd']
     r['pdl'] = env['roadm_pdl']
     r['target_pch_out_db'] = env['roadm_target']
+    prof = env.get('roadm_profile')
+    if prof:
+        def ranges(pair, extra):
+            out = []
+            for (lo, hi), v in zip(((191.2e12, prof['split']), (prof['split'], 196.2e12)), pair or [None, None]):
+                item = {'frequency-range': {'lower-frequency': lo, 'upper-frequency': hi}, 'roadm-pmd': env['roadm_pmd'],
+                        'roadm-cd': 0, 'roadm-pdl': env['roadm_pdl'], 'roadm-inband-crosstalk': 0}
+                item.update(extra)
+                if v is not None:
+                    item['roadm-osnr'] = v
+                out.append(item)
+            return out
+        imps = []
+        for k, (name, key, extra) in enumerate((('express', 'roadm-express-path', {'roadm-maxloss': 16.5}),
+                                                ('add', 'roadm-add-path', {'roadm-maxloss': 11.5}),
+                                                ('drop', 'roadm-drop-path', {'roadm-maxloss': 11.5}))):
+            if prof[name] != 'absent':
+                imps.append({'roadm-path-impairments-id': k, key: ranges(prof[name], extra)})
+        e['Roadm'].append({'type_variety': 'rimp', 'target_pch_out_db': env['roadm_target'],
+                           'add_drop_osnr': prof['add_drop_osnr'], 'pmd': env['roadm_pmd'], 'pdl': env['roadm_pdl'],
+                           'restrictions': {'preamp_variety_list': [], 'booster_variety_list': []},
+                           'roadm-path-impairments': imps})
     e['Transceiver'] = [{'type_variety': 'T', 'frequency': {'min': F0, 'max': F0 + (env['nch'] + 0.5) * 50e9},
                          'mode': copy.deepcopy(modes)}]
     return e
@@ -415,7 +456,10 @@ def topo_json(env):
     nspan = 0
     for i in range(env['nsites']):
         x = chr(65 + i)
-        els += [{'uid': f'trx {x}', 'type': 'Transceiver'}, {'uid': f'roadm {x}', 'type': 'Roadm'}]
+        ro = {'uid': f'roadm {x}', 'type': 'Roadm'}
+        if env.get('roadm_profile') and (env.get('roadm_sites') or [])[i:i + 1] == [True]:
+            ro['type_variety'] = 'rimp'
+        els += [{'uid': f'trx {x}', 'type': 'Transceiver'}, ro]
         cx += [(f'trx {x}', f'roadm {x}'), (f'roadm {x}', f'trx {x}')]
     for (a, b, ab, ba) in env['lines']:
         for (s, t, sp) in ((a, b, ab), (b, a, ba)):
@@ -505,20 +549,45 @@ def _fresh_propagation(E, path, req, br, off, roll_off):
             'gains': {el.uid: float(el.effective_gain) for el in p if isinstance(el, Edfa)}}
 
 
-def add_drop_contrib(E, path):
-    """1/linear noise contributions of the add and drop stages, from the equipment description (not from the code
-    under test): the first and last ROADM of a path are add / drop, each worth add_drop_osnr + 10log10(2) dB"""
+def channel_freqs(req):
+    """centre frequencies of the request's comb: f_min + k * spacing, k = 1 .. floor((f_max - f_min) / spacing)"""
+    n = int((req.f_max - req.f_min) // req.spacing)
+    return [req.f_min + req.spacing * k for k in range(1, n + 1)]
+
+
+def add_drop_contrib(E, path, freqs):
+    """per channel, the 1/linear noise the crossed ROADMs add, from the equipment DESCRIPTION (not from the code under
+    test): the first ROADM of a path is crossed on its add path, the last on its drop path, the others express.  A ROADM
+    of the default type is worth add_drop_osnr + 10log10(2) dB on add and drop and nothing on express; a ROADM with
+    per-path impairment profiles is worth the roadm-osnr of the first frequency range of that path type that contains
+    the channel (nothing when the profile gives none; the default model when the type has no profile for the path)"""
     from gnpy.core.elements import Roadm
     roadms = [el for el in path if isinstance(el, Roadm)]
     if len(roadms) < 2:
         return None
-    return [inv(roadms[0].params.add_drop_osnr + LOG10_2), inv(roadms[-1].params.add_drop_osnr + LOG10_2)]
+    prof = E.env.get('roadm_profile')
+    sites = E.env.get('roadm_sites') or []
+    tot = [0.0] * len(freqs)
+    for k, ro in enumerate(roadms):
+        kind = 'add' if k == 0 else 'drop' if k == len(roadms) - 1 else 'express'
+        idx = ord(ro.uid.split()[-1]) - 65
+        rimp = bool(prof) and idx < len(sites) and sites[idx]
+        if rimp and prof[kind] != 'absent':
+            pair = prof[kind]
+            if pair is None:
+                continue
+            for c, f in enumerate(freqs):
+                tot[c] += inv(pair[0] if f <= prof['split'] else pair[1])
+        elif kind != 'express':
+            ad = prof['add_drop_osnr'] if rimp else E.env['add_drop_osnr']
+            for c in range(len(freqs)):
+                tot[c] += inv(ad + LOG10_2)
+    return tot
 
 
 def rx_g01(raw01, contrib, tx_osnr):
-    """receiver GSNR (0.1 nm, dB): line + add + drop + transmitter, each once"""
-    extra = sum(contrib) + inv(tx_osnr)
-    return [to_db(inv(r) + extra) for r in raw01]
+    """receiver GSNR (0.1 nm, dB): line + ROADM stages + transmitter, each once"""
+    return [to_db(inv(r) + c + inv(tx_osnr)) for r, c in zip(raw01, contrib)]
 
 
 def metric_py(g01, tot_pen):
@@ -534,6 +603,105 @@ def rx_snapshot(rx):
             'pen': [float(x) for x in np.broadcast_to(rx.total_penalty, (n,))],
             'cd': [float(x) for x in rx.chromatic_dispersion], 'pmd': [float(x) for x in rx.pmd],
             'pdl': [float(x) for x in rx.pdl]}
+
+
+# ------------------------------------------------------------------ amplifier state tracer (shared with C16)
+class AmpTracer:
+    """records, per Edfa OBJECT, what happens to it while requests are computed: S = propagate_and_optimize_mode entered
+    with this amplifier on its path (the designed gains are recorded there), R = a (baud, offset) iteration starts (they are
+    written back), P = the amplifier propagates a spectrum (total input power pin_db, effective gain afterwards).
+    The events come from the call structure, never from the gain values; the model predicts every gain from the designed
+    gain of the network element, p_max and the input powers."""
+
+    def __init__(self, net):
+        import gnpy.core.elements as elements
+        self.designed = {el.uid: (float(el.effective_gain), float(el.params.p_max)) for el in net.nodes()
+                         if isinstance(el, elements.Edfa)}
+        self.traces = {}
+        self.keep = []
+        self.loop = None
+
+    def _tr(self, amp):
+        t = self.traces.get(id(amp))
+        if t is None:
+            self.keep.append(amp)
+            g0, pmax = self.designed.get(amp.uid, (None, None))
+            t = self.traces[id(amp)] = {'uid': amp.uid, 'g0': g0, 'pmax': pmax, 'events': [], 'gains': [], 'before': []}
+        return t
+
+    def __enter__(self):
+        import gnpy.core.elements as elements
+        import gnpy.topology.request as rq
+        self._el, self._rq = elements, rq
+        self._call, self._pom, self._ci = elements.Edfa.__call__, rq.propagate_and_optimize_mode, \
+            rq.create_input_spectral_information
+        tracer = self
+
+        def call(amp, si):
+            before = float(amp.effective_gain)
+            out = tracer._call(amp, si)
+            t = tracer._tr(amp)
+            t['events'].append(['P', float(amp.pin_db)])
+            t['gains'].append(float(amp.effective_gain))
+            t['before'].append(before)
+            return out
+
+        def pom(path, req, equipment):
+            amps = [el for el in path if isinstance(el, elements.Edfa)]
+            for a in amps:
+                tracer._tr(a)['events'].append(['S'])
+            tracer.loop = amps
+            try:
+                return tracer._pom(path, req, equipment)
+            finally:
+                tracer.loop = None
+
+        def ci(*a, **kw):
+            if tracer.loop is not None:
+                for amp in tracer.loop:
+                    tracer._tr(amp)['events'].append(['R'])
+            return tracer._ci(*a, **kw)
+        elements.Edfa.__call__ = call
+        rq.propagate_and_optimize_mode = pom
+        rq.create_input_spectral_information = ci
+        return self
+
+    def __exit__(self, *exc):
+        self._el.Edfa.__call__ = self._call
+        self._rq.propagate_and_optimize_mode = self._pom
+        self._rq.create_input_spectral_information = self._ci
+        return False
+
+    def result(self):
+        return [{k: v for k, v in t.items()} for t in self.traces.values() if t['gains'] and t['g0'] is not None]
+
+
+def term_amp(t):
+    evs = []
+    for e in t['events']:
+        if e[0] == 'S':
+            evs.append('ASnap')
+        elif e[0] == 'R':
+            evs.append('ARestore')
+        else:
+            evs.append('ap_none' if math.isinf(e[1]) else f'ap {fl(e[1])}')
+    return f"amp_case {fl(t['g0'])} {fl(t['pmax'])} {listlit(evs)}"
+
+
+def judge_amp(ctx, case, t, line, prop='Verdict'):
+    """model history vs observed effective gains (1e-9 dB), and the clamp law on every single propagation (oracle)"""
+    for k, (e, b, g) in enumerate(zip([e for e in t['events'] if e[0] == 'P'], t['before'], t['gains'])):
+        want = b if math.isinf(e[1]) else min(b, t['pmax'] - e[1])
+        if abs(want - g) > 1e-9:
+            ctx.violation('amplifier_clamp_law', f"{t['uid']}: gain {b} dB before, p_max {t['pmax']} dBm, input {e[1]} dBm: "
+                          f'effective gain {g} dB after the propagation, min(gain, p_max - pin) = {want}', case)
+            return False
+    model = [float(pq(x)) for x in line.split(',')] if line else []
+    if len(model) != len(t['gains']) or any(abs(a - b) > 1e-9 for a, b in zip(model, t['gains'])):
+        ctx.corr_break(f'corr:{prop}.amp_history', f"{t['uid']} (designed {t['g0']} dB, p_max {t['pmax']}): events {t['events']}: "
+                       f"observed gains {t['gains']}, model {model}", case, impl=t['gains'], model=model)
+        return False
+    return True
 
 
 # ------------------------------------------------------------------ C. decision cases
@@ -593,7 +761,7 @@ def complete_modes(E, case, path, req_probe):
     if case.get('modes_final'):
         return case['modes_final']
     rng = random.Random(case['tabseed'])
-    contrib = add_drop_contrib(E, path)
+    contrib = add_drop_contrib(E, path, channel_freqs(req_probe))
     out, frs = [], []
     for k, m in enumerate(case['modes']):
         m = dict(m)
@@ -723,7 +891,9 @@ def drive_decision(case):
         # a receiver that records nothing (snr stays None): the loop must answer NO_COMPUTED_SNR
         elements.Transceiver.__call__ = lambda self, si: si
     try:
-        prop, rev, revprop = rq.compute_path_with_disjunction(E.net, E.eq, rqs, pths)
+        with AmpTracer(E.net) as tracer:
+            prop, rev, revprop = rq.compute_path_with_disjunction(E.net, E.eq, rqs, pths)
+        obs['amp_traces'] = tracer.result()
     finally:
         elements.Transceiver.calc_penalties = orig_cp
         rq.create_input_spectral_information = orig_ci
@@ -739,7 +909,8 @@ def drive_decision(case):
     obs['network_untouched'] = designed == {el.uid: el.effective_gain for el in path if isinstance(el, elements.Edfa)}
     # ---- fresh, independent figures for the model
     rpath = rq.find_reversed_path(path)
-    obs['contrib'], obs['rcontrib'] = add_drop_contrib(E, path), add_drop_contrib(E, rpath)
+    fq_ = channel_freqs(probe[0])
+    obs['contrib'], obs['rcontrib'] = add_drop_contrib(E, path, fq_), add_drop_contrib(E, rpath, fq_)
     obs['margin'] = E.eq['SI']['default'].sys_margins
     roll = E.eq['SI']['default'].roll_off
     pr = probe[0]
@@ -984,9 +1155,8 @@ def own_oracles(ctx, case, obs):
     for snap, contrib, name in ((obs['fwd'], obs['contrib'], 'forward'), (obs['rev'], obs['rcontrib'], 'reverse')):
         if snap is None:
             continue
-        extra = sum(contrib) + inv(fin['tx_osnr'])
         for k, (g, r) in enumerate(zip(snap['g01'], snap['raw01'])):
-            a, b = inv(g), inv(r) + extra
+            a, b = inv(g), inv(r) + contrib[k] + inv(fin['tx_osnr'])
             if abs(a - b) > 1e-9 * max(a, b):
                 ctx.violation('noise_not_counted_once',
                               f'{name} channel {k}: 1/GSNR_rx = {a:.12g} but line + add + drop + tx = {b:.12g} '
@@ -1150,6 +1320,7 @@ def run(ctx):
         cases += [gen_pen(rng) for _ in range(ctx.scale(120, 2000))]
         cases += [gen_decision(rng) for _ in range(ctx.scale(200, 2500))]
     terms, meta = [], []
+    amp_terms, amp_meta = [], []
     dec = [c for c in cases if c['kind'] == 'decision']
     driven = {}
     for c, (mf, obs) in zip(dec, pmap(_drive_worker, dec)):
@@ -1194,6 +1365,9 @@ def run(ctx):
                               case_public(c), detail=lk)
             terms.append(term_decision(c, obs, observed=bool(lk)))
             meta.append((c, impl_line(c, obs), (obs, lk)))
+            for t in obs.get('amp_traces', []):
+                amp_terms.append(term_amp(t))
+                amp_meta.append((c, t))
     ctx.extra['t_gnpy_s'] = round(time.time() - t0 - ctx.extra['t_proof_s'], 1)
     t1 = time.time()
     lines = common.coq_eval('C13', 'Prelude Model.Verdict Run.C13', terms, per_file=ctx.scale(12, 40))
@@ -1217,11 +1391,18 @@ def run(ctx):
                 ctx.corr_break('corr:Verdict.decision', d, case_public(c), impl=impl, model=model)
             elif model.get('kind'):
                 ctx.count('outcome_' + model['kind'])
+    amp_lines = common.coq_eval('C13', 'Prelude Model.Verdict Run.C13', amp_terms, per_file=ctx.scale(120, 400), tag='amps')
+    for (c, t), line in zip(amp_meta, amp_lines):
+        ctx.count('amplifier_histories')
+        ctx.count('amplifier_propagations', len(t['gains']))
+        if any(g < b - 1e-12 for g, b in zip(t['gains'], t['before'])):
+            ctx.count('amplifier_histories_with_a_clamp')
+        judge_amp(ctx, case_public(c), t, line)
     ctx.assumptions += [
         'receiver figures handed to the model are computed here from the line GSNR of a fresh propagation '
         '(10^(-x/10), log10 of the Python math module) plus the add/drop OSNR of the equipment description and the mode tx_osnr',
         'decisions whose rounded metric equals the threshold (or sits on a rounding tie) are not judged (counted)',
-        'the ROADMs of the generated networks use the default add/drop model (add_drop_osnr); per-path impairment '
-        'profiles are not generated',
+        'ROADM noise handed to the model comes from the equipment description: default add_drop_osnr model, or per-path '
+        'roadm-osnr profiles with two frequency ranges (add / drop / express) on the sites that use the profiled type',
     ]
     return common.finish(ctx, MATCHERS)
